@@ -35,6 +35,8 @@ def corpus():
         {"kind": "scale", "values": [1, 2, 5], "total": 16, "exact": True},
         {"kind": "representing", "dist": [["00", "1/2"], ["11", "1/2"]], "n": 3, "seed": 1},
         {"kind": "representing", "dist": [["0", "1/2"], ["1", "1/2"]], "n": 1, "seed": 2},
+        {"kind": "representing", "dist": [[format(i, "03b"), "1/8"] for i in range(8)], "n": 3, "seed": 5},
+        {"kind": "combine_counts", "all": [[["00", 10], ["11", 20]]] * 3, "mults": [3], "alias": True},
     ]
 
 
@@ -66,6 +68,9 @@ def generate(rng, tier):
             c = Counter(format(rng.randrange(4), "02b") for _ in range(rng.randrange(1, 6)))
             allc.append([[k2, v] for k2, v in c.items()])
         cases.append({"kind": "combine_counts", "all": allc, "mults": mults})
+        if tot >= 2 and tot == sum(mults):
+            rep = [allc[0]] * tot if rng.random() < 0.5 else [rng.choice(allc[:2]) for _ in range(tot)]
+            cases.append({"kind": "combine_counts", "all": rep, "mults": mults, "alias": True})
     for _ in range(400 if big else 60):
         k = rng.randrange(0, 12)
         ns = [rng.randrange(1, 50) for _ in range(k)]
@@ -99,6 +104,12 @@ def generate(rng, tier):
         ps = [b - a for a, b in zip([0] + cuts, cuts + [den])]
         dist = [[k2, rat(Fraction(p, den))] for k2, p in zip(keys, ps)]
         cases.append({"kind": "representing", "dist": dist, "n": rng.randrange(1, 40), "seed": rng.randrange(2 ** 31)})
+    for _ in range(300 if big else 60):
+        # uniform distributions: the rounding stage leaves a deficit / excess of several shots
+        w = rng.randrange(1, 5)
+        keys = [format(i, f"0{w}b") for i in range(2 ** w)]
+        dist = [[k2, rat(Fraction(1, 2 ** w))] for k2 in keys]
+        cases.append({"kind": "representing", "dist": dist, "n": rng.randrange(1, 3 * 2 ** w), "seed": rng.randrange(2 ** 31)})
     return cases
 
 
@@ -133,8 +144,18 @@ def run_impl(c):
         if k == "combine_bitstrings":
             return {"res": it.combine_bitstrings(c["all"], c["mults"])}
         if k == "combine_counts":
-            res = it.combine_measurement_counts([dict(map(tuple, d)) for d in c["all"]], c["mults"])
-            return {"res": [[[kk, v] for kk, v in d.items()] for d in res]}
+            if c.get("alias"):
+                # equal per-copy results are the SAME dict object (a memoising backend returns shared objects)
+                pool = {}
+                args = [pool.setdefault(common.canon(d), dict(map(tuple, d))) for d in c["all"]]
+            else:
+                args = [dict(map(tuple, d)) for d in c["all"]]
+            res = it.combine_measurement_counts(args, c["mults"])
+            out = {"res": [[[kk, v] for kk, v in d.items()] for d in res]}
+            out["args_intact"] = [sorted(a.items()) for a in args] == [sorted(map(tuple, d)) for d in c["all"]]
+            res2 = it.combine_measurement_counts(args, c["mults"])
+            out["again"] = [[[kk, v] for kk, v in d.items()] for d in res2]
+            return out
         if k == "batches":
             cs = list(range(c.get("n_circuits", len(c["ns"]))))
             res = list(it.split_into_batches(cs, c["ns"], c["max"]))
@@ -271,6 +292,10 @@ def oracle(c, out):
                 return ("combine-counts", f"combined counts {got} but group totals are {dict(want)}")
         if len(out["res"]) != len(c["mults"]):
             return ("combine-counts", "wrong number of combined results")
+        if [sorted(map(tuple, d)) for d in out.get("again", out["res"])] != [sorted(map(tuple, d)) for d in out["res"]]:
+            return ("combine-counts-repeat", "combining the same per-copy results a second time gave different totals")
+        if not out.get("args_intact", True):
+            return ("combine-counts-mutates", "combine_measurement_counts modified the per-copy results it was given")
     elif k == "batches":
         nc = c.get("n_circuits", len(c["ns"]))
         bad = nc != len(c["ns"]) or c["max"] <= 0
